@@ -34,6 +34,13 @@ CLAUSES = {
 CLAUSE_METHODS = {"where", "group_by", "having", "order_by", "limit", "offset", "with_only_columns"}
 
 
+def _with_helpers_src(mod, f):
+    """normalised text of `f` and of every function of the same module reachable from it (source.reachable_functions)"""
+    from ..source import reachable_functions
+
+    return " ".join(norm(g) for g in reachable_functions(mod, f))
+
+
 def run(chk):
     m = model_of(chk)
     sym, repo, cat = m.sym, chk.repo, m.cat
@@ -192,7 +199,8 @@ def run(chk):
     for kw in declared:
         read_by = {}
         for be, f in readers.items():
-            src = norm(f)
+            # the dispatcher together with the same-module helpers it (transitively) calls: the ColFn case may live in a helper
+            src = _with_helpers_src(pol if be == "polars" else sql, f)
             read_by[be] = f"context_kwargs.get('{kw}')" in src or f"context_kwargs['{kw}']" in src
         if all(read_by.values()):
             chk.ok("R3", ce, init, f"context keyword `{kw}` is read by both dispatchers")
